@@ -242,7 +242,7 @@ pub fn run_property(prop: &Property, tier: Tier) -> i32 {
         if !o.pass && o.fails.iter().any(|f| f.sig == k.sig) {
             known_reproduced += 1;
             println!("KNOWN-FINDING: property={} {} [sig={}]", prop.id, k.desc, k.sig);
-        } else if o.pass {
+        } else {
             println!("note: known finding no longer reproduces (repaired?): property={} sig={}", prop.id, k.sig);
         }
         if let Some(f) = o.fails.iter().find(|f| !known_set.contains(&f.sig)) {
